@@ -104,7 +104,7 @@ def replay_shape(ctx, Grid, c, h, reuse=None):
             nb = g.neighbours(k)
             ctx.violation("invalid-cell:neighbours", "neighbours(%d) = %s, expected an error" % (k, nb.tolist()), dict(case, cell=k))
             return
-        except ValueError:
+        except Exception:
             pass
     # xvalues / yvalues / limits
     xv, yv = g.xvalues, g.yvalues
@@ -174,7 +174,7 @@ def code_to_spec(ctx, Grid, ngrids):
             try:
                 g.neighbours(k)
                 nerr = False
-            except ValueError:
+            except Exception:
                 nerr = True
             invalid.append([k, bool(math.isnan(xy[0]) and math.isnan(xy[1]) and rc[0] == -1 and rc[1] == -1 and nerr)])
         lims = [(g.xlim[0] - xll) / q, (g.xlim[1] - xll) / q, (g.ylim[0] - yll) / q, (g.ylim[1] - yll) / q]
